@@ -310,6 +310,65 @@ func dirInfo(prefix string, v *vnode, out *[]dinfo) (bool, int) {
 	return hid, cnt
 }
 
+// index of the first component of p at which CheckPath must fail (bad name, or a
+// directory holding go.mod), -1 if none; ok=false if p runs through a link
+func firstBad(tree *vnode, comps []string) (int, bool) {
+	n := tree
+	for i, c := range comps {
+		var nxt *vnode
+		for _, e := range n.E {
+			if e.N == c {
+				nxt = e.V
+			}
+		}
+		if nxt == nil {
+			return -1, false
+		}
+		if IsBadName(c) {
+			return i, true
+		}
+		if nxt.K == "d" {
+			for _, e := range nxt.E {
+				if e.N == "go.mod" && (e.V.K != "l" || e.V.T != nil) {
+					return i, true
+				}
+			}
+		} else if i < len(comps)-1 {
+			return -1, false
+		}
+		n = nxt
+	}
+	return -1, true
+}
+
+func cachePair(r *vrng, tree *vnode, paths []vpath) []string {
+	clean := map[string][]string{} // base name -> accepted paths
+	for _, vp := range paths {
+		comps := strings.Split(vp.p, "/")
+		if j, ok := firstBad(tree, comps); ok && j < 0 && (vp.kind == "f" || vp.kind == "d") {
+			b := comps[len(comps)-1]
+			clean[b] = append(clean[b], vp.p)
+		}
+	}
+	var cands [][]string
+	for _, vp := range paths {
+		comps := strings.Split(vp.p, "/")
+		j, ok := firstBad(tree, comps)
+		if !ok || j < 0 || j == len(comps)-1 {
+			continue
+		}
+		for _, c := range comps[j+1:] {
+			for _, p1 := range clean[c] {
+				cands = append(cands, []string{p1, vp.p})
+			}
+		}
+	}
+	if len(cands) == 0 {
+		return nil
+	}
+	return cands[r.n(len(cands))]
+}
+
 func globParent(p string) string {
 	if j := strings.LastIndexByte(p, '/'); j >= 0 {
 		return p[:j+1] + "*"
@@ -343,6 +402,13 @@ func (g *gen) mixed(tree *vnode, paths []vpath) []string {
 	d := pickDir()
 	form := r.n(14)
 	if form >= 12 {
+		// a path below a directory that must be refused (bad name / nested module), preceded by an
+		// accepted path whose base name occurs below that directory: a check cached under the wrong
+		// key would let the second one through
+		if pp := cachePair(r, tree, paths); pp != nil {
+			g.classes["mixed:cachepair"]++
+			return pp
+		}
 		form = 8
 	}
 	g.classes[fmt.Sprintf("mixed:%02d", form)]++
